@@ -192,6 +192,76 @@ def check(ctx: Ctx) -> list[RuleResult]:
     else:
         r3.fail("hgi-substitution", cs.loc(), f"the 18:000730 placeholder is substituted on one side only (cmd={sub_cmd}, pkt={sub_pkt}): the echo of a command sent from the placeholder id would never match")
     out.append(r3)
+
+    # ---- R4 ---------------------------------------------------------------------------
+    # "The context is a superset of the index" (Frame._ctx's own contract): headers are built from _ctx, entities are addressed by
+    # _idx. For every code-specific branch of Frame._ctx, the payload columns the context is made of must cover the columns
+    # _pkt_idx reads for that code (a component `self._idx` covers them all) - else two packets that _pkt_idx tells apart (the DHW
+    # schedule vs zone 00's: payload[2:4] == '23') get the same header and one is taken for the reply to the other.
+    r4 = RuleResult("R4", "the context covers the index", "per code: payload columns of Frame._ctx ⊇ payload columns read by _pkt_idx", min_instances=2)
+    ctxf = repo.func("ramses_tx.frame.Frame._ctx")
+    pidx = repo.func("ramses_tx.frame._pkt_idx")
+
+    def cols_of(e: ast.AST, base: str) -> "set[int] | None":
+        """Payload columns read by an expression (None = open-ended / not understood)."""
+        out: set[int] = set()
+        for n in ast.walk(e):
+            if isinstance(n, ast.Subscript) and norm(n.value) == base:
+                if not isinstance(n.slice, ast.Slice):
+                    return None
+                lo = 0 if n.slice.lower is None else getattr(n.slice.lower, "value", None)
+                hi = getattr(n.slice.upper, "value", None) if n.slice.upper is not None else None
+                if not isinstance(lo, int) or not isinstance(hi, int):
+                    return None
+                out |= set(range(lo, hi))
+        return out
+
+    def codes_of(test: ast.expr, subj: str) -> list[str]:
+        if isinstance(test, ast.Compare) and len(test.ops) == 1 and norm(test.left) == subj:
+            try:
+                v = ctx.consts.eval_in(ctxf, test.comparators[0])
+            except Exception:
+                return []
+            if isinstance(test.ops[0], ast.Eq) and isinstance(v, str):
+                return [v]
+            if isinstance(test.ops[0], ast.In) and isinstance(v, (tuple, list, set, frozenset)):
+                return [x for x in v if isinstance(x, str)]
+        return []
+
+    # _pkt_idx: columns read per code (tests and returns of the `if pkt.code == X:` block)
+    idx_cols: dict[str, "set[int] | None"] = {}
+    for st in pidx.node.body:
+        if isinstance(st, ast.If):
+            for code in codes_of(st.test, "pkt.code"):
+                cs: "set[int] | None" = set()
+                for sub in st.body:
+                    c2 = cols_of(sub, "pkt.payload")
+                    cs = None if (cs is None or c2 is None) else cs | c2
+                idx_cols.setdefault(code, cs)  # the first branch that handles the code is the one that runs
+    # Frame._ctx: the if/elif chain
+    chain = [st for st in ctxf.node.body if isinstance(st, ast.If) and any(isinstance(n, ast.Assign) and norm(n.targets[0]) == "self._ctx_" for n in ast.walk(st))]
+    if not chain:
+        raise AnalysisError("Frame._ctx: the code-specific chain was not found")
+    cur: ast.stmt | None = chain[-1]
+    while isinstance(cur, ast.If):
+        codes = codes_of(cur.test, "self.code")
+        assigns = [n for b in cur.body for n in ast.walk(b) if isinstance(n, ast.Assign) and norm(n.targets[0]) == "self._ctx_"]
+        for code in codes:
+            for a in assigns:
+                r4.instances += 1
+                r4.nontrivial += 1
+                uses_idx = any(isinstance(n, ast.Attribute) and norm(n) == "self._idx" for n in ast.walk(a.value))
+                have = cols_of(a.value, "self.payload")
+                need = idx_cols.get(code, set())
+                if uses_idx or need is None and have is None or (need is not None and have is not None and need <= have):
+                    r4.ok({"code": code, "context": norm(a.value)[:50], "covers_index_columns": sorted(need) if need else []})
+                else:
+                    missing = sorted((need or set()) - (have or set())) if need is not None and have is not None else "?"
+                    r4.fail(f"{ctxf.short}:{code}:context-misses-index-columns", ctxf.loc(a), f"for code {code} the context is `{norm(a.value)[:60]}`, which does not include payload columns {missing} that _pkt_idx reads to tell contexts apart: packets for different zones/domains get the same header")
+        cur = cur.orelse[0] if len(cur.orelse) == 1 and isinstance(cur.orelse[0], ast.If) else None
+    if r4.instances < 2:
+        raise AnalysisError("Frame._ctx: fewer than 2 code-specific context definitions found")
+    out.append(r4)
     return out
 
 
